@@ -55,7 +55,7 @@ class C14(Prop):
         return {"Db": {"D1", "D2"}, "Sc": {"S1"}, "DiskDb": "D1", "MaxSess": 3}
 
     def model_checks(self, tier):
-        c = dict(self.consts(tier), Devs=set(), Depth=7, MaxFails=0, MaxSess=3 if tier == "thorough" else 2)
+        c = dict(self.consts(tier), Devs=set(), Depth=7, MaxFails=0, SampleOneIn=1, MaxSess=3 if tier == "thorough" else 2)
         return [
             dict(name="mc_ideal", consts=c, invariants=["StepInv"], constraint="Bound", view="ViewSt"),
             dict(name="mc_dev", consts=dict(c, Devs={"C14.create_schema_in_missing_database"}, Depth=3, MaxSess=1),
@@ -64,7 +64,7 @@ class C14(Prop):
 
     def generations(self, tier, seed):
         big = tier == "thorough"
-        base = dict(self.consts(tier), Devs=set(), MaxFails=0)
+        base = dict(self.consts(tier), Devs=set(), MaxFails=0, SampleOneIn=1)
         g = [
             # the full configuration product: every (instance options x prior state x connect arguments), one path each
             dict(name="edges", mode="edges", consts=dict(base, MaxSess=1, Depth=5)),
